@@ -3,7 +3,7 @@
 T1_MODULES = {
     "C11": ["vt.contracts.syntactic", "vt.contracts.einsum_eq", "vt.contracts.tensordot_recipe", "vt.contracts.core_inds"],
     "C08": ["vt.contracts.hyper_score"],
-    "C12": ["vt.contracts.misc_small", "vt.contracts.syntactic"],
+    "C12": ["vt.contracts.misc_small", "vt.contracts.syntactic", "vt.contracts.einsum_front"],
     "C17": ["vt.contracts.syntactic", "vt.contracts.misc_small"],
     "C16": ["vt.contracts.syntactic"],
     "C15": ["vt.contracts.diskdict_effects"],
